@@ -31,7 +31,7 @@ def _cells_to_cases(cells, r, tag):
                 r.shuffle(order)
                 body += nt.group_lines(t2, _combo(c["cur"]), {}, c["forced"], c["tap"], order)
                 exp.append((t2, c["h"]))
-                t = t2 + r.choice([1, 1, (2 * res + 3) // 6, (2 * res + 3) // 6 + 1, 4 * res + 1, 7])
+                t = t2 + max(1, r.choice([1, 1, (2 * res + 3) // 6, (2 * res + 3) // 6 + 1, 4 * res + 1, 7]))
             cases.append({"id": f"C04-{tag}-r{res}-{a // per}", "res": res, "body": body, "cell_expect": exp})
     return cases
 
@@ -42,7 +42,7 @@ def _judge_cells(ctx, cases, origin):
     for c in cases:
         exp = dict(c.pop("cell_expect"))
         c["_exp"] = exp
-    _notes._judge(ctx, cases, "C04", origin)
+    _notes._judge(ctx, cases, "C04", origin, max_skip_ratio=0.01)
 
 
 def run(ctx):
@@ -83,7 +83,7 @@ def run(ctx):
     _notes._judge(ctx, special, "C04", "first-note cases")
     # TRACE: seeded tracks at seeded resolutions
     cases = _notes.seeded_tracks(ctx, "C04", ctx.pick(400, 6000), flags_p=0.4)
-    _notes._judge(ctx, cases, "C04", "seeded tracks")
+    _notes._judge(ctx, cases, "C04", "seeded tracks", max_skip_ratio=0.01)
     ctx.assumptions += [
         "a forced first note is outside the property's domain (the library rejects it with ValueError, see C18)",
         "the decision table is exhaustive per resolution; resolutions are a fixed small set plus seeded ones up to 10^6",
